@@ -17,7 +17,7 @@ from traits.api import (Any, DelegatesTo, HasTraits, Instance, Int, PrototypedFr
 
 push_exception_handler(handler=lambda *a: None, reraise_exceptions=True, main=True)
 
-EXN = ["TraitError", "AttributeError", "DelegationError", "RecursionError"]
+EXN = ["TraitError", "AttributeError", "DelegationError", "RecursionError", "KeyError"]
 TOK = {0: "x", 1: "y", 2: "a", 3: "b", 4: "r", 5: "_items", 10: "p_", 11: "pre_", 12: "q_", 20: "parent", 21: "other"}
 
 
@@ -28,7 +28,7 @@ def nm(tokens):
     return "".join(TOK[t] for t in tokens)
 
 
-def make_trait(spec):
+def make_trait(spec, listenable=True):
     k = spec[0]
     if k == "Normal":
         kind, d = spec[1], spec[2]
@@ -39,7 +39,7 @@ def make_trait(spec):
         d, rule, modify = nm(spec[1]), spec[2], spec[3]
         prefix = {"Same": lambda: "", "Explicit": lambda: nm(rule[1]), "Prefix": lambda: nm(rule[1]) + "*",
                   "Class": lambda: "*"}[rule[0]]()
-        return (DelegatesTo if modify else PrototypedFrom)(d, prefix)
+        return (DelegatesTo if modify else PrototypedFrom)(d, prefix, listenable=listenable)
     raise ValueError(spec)
 
 
@@ -47,8 +47,9 @@ def run_case(case):
     classes = []
     for i, c in enumerate(case["classes"]):
         ns = {"__prefix__": nm(c["prefix"])}
+        unlisten = [list(u) for u in c.get("unlisten", [])]
         for tn, spec in c["traits"]:
-            ns[nm(tn)] = make_trait(spec)
+            ns[nm(tn)] = make_trait(spec, listenable=list(tn) not in unlisten)
         classes.append(type("K%d" % i, (HasTraits,), ns))
     pool = [classes[o["cls"]]() for o in case["objs"]]
 
